@@ -9,6 +9,9 @@ from ..spec import P, H2
 from .c05 import CS, PCS, pcs
 
 EXPLANATION = """
+[ROUND-TRIP, sized symbolic fields] for legacy and segwit transactions built from arbitrary fixed-length fields, followed by nothing / 1 / 7 arbitrary bytes / a copy of the
+transaction / its own first bytes, tx_deser reports txid = SHA256d(serialisation without marker, flag, witness), wtxid = SHA256d(the complete serialisation), raw = the
+transaction's bytes and leftover = exactly what followed.
 [TERM] tx_deser is summarised per mode (segwit / legacy, fixed as a mode assumption on the BIP141 detection
 condition). Segwit: txid must be hex(SHA256d(tx(ins', outs', version, locktime))) on the non-witness branch of tx(),
 where ins' re-serialises EVERY parsed field of every input (outpoint from txid and vout, scriptSig, and the input's own
@@ -157,6 +160,8 @@ def run(ctx):
     _c05.check_writers_layout(ctx, "C04.5")
     _c05.check_readers_layout(ctx, "C04.5")
     _c05.check_tx_deser(ctx, "C04.5")
+    from . import rt
+    rt.check_tx_roundtrip(ctx, "C04.6", ids_only=True)
 
 
 def check_block_deser(ctx, oid="C04.4"):
